@@ -91,6 +91,9 @@ def expected_refusal(op, pre):
         args = dict(kv.split("=", 1) for kv in f[6].split(",")) if f[6] not in ("-", "") else {}
         if "x-match" in args and args["x-match"] not in ("all", "any"):
             return ("ch", 406)
+        # on a topic exchange the wildcards are whole words only (binding.go parseTopicPattern)
+        if X[ex].get("type") == 3 and any(len(w) > 1 and ("*" in w or "#" in w) for w in (de(f[5]).split(".") if de(f[5]) != "" else [])):
+            return ("ch", 406)
         return None
     if k in ("QP", "QDEL", "GET", "CONS"):
         q = q_of(de(f[3]))
